@@ -363,7 +363,7 @@ func drive(id string) int {
 			machinery = true
 		}
 	}
-	c.DistinctN = int64(len(distinctOutcomes))
+	c.DistinctN += int64(len(distinctOutcomes))
 	c.Extra["shards"] = perShard
 	c.Extra["bounds_completed"] = allComplete
 	c.Exhaustive = allComplete
